@@ -1,8 +1,14 @@
 From MJ Require Import Common.Base C05.Model C05.Spec.
 Local Open Scope nat_scope.
 
+(* ---- boolean equalities ---- *)
+Lemma opt_eqb_eq a b : opt_eqb a b = true -> a = b.
+Proof.
+  destruct a as [[p c]|], b as [[q d]|]; cbn; try congruence.
+  intros H. apply andb_prop in H as [H1 H2]. apply Nat.eqb_eq in H1. apply Bool.eqb_prop in H2. congruence.
+Qed.
 Lemma fk_eqb_eq a b : fk_eqb a b = true -> a = b.
-Proof. destruct a, b; cbn; congruence. Qed.
+Proof. destruct a, b; cbn; try congruence. intros H. apply opt_eqb_eq in H. congruence. Qed.
 Lemma slot_eqb_eq a b : slot_eqb a b = true -> a = b.
 Proof. destruct a, b; cbn; congruence. Qed.
 Lemma list_eqb_eq {A} (e : A -> A -> bool) (He : forall x y, e x y = true -> x = y) :
@@ -11,42 +17,141 @@ Proof.
   induction a as [|x a IH]; destruct b as [|y b]; cbn; try congruence.
   intros H. apply andb_prop in H as [H1 H2]. f_equal; auto.
 Qed.
-
-Lemma is_prefix_app a : forall b, is_prefix a b = true -> exists extra, b = a ++ extra.
+Lemma shape_eqb_eq a b : shape_eqb a b = true -> a = b.
 Proof.
-  induction a as [|x a IH]; intros b H; cbn in *.
-  - exists b; reflexivity.
-  - destruct b as [|y b]; [discriminate|]. apply andb_prop in H as [H1 H2].
-    apply slot_eqb_eq in H1. subst. destruct (IH b H2) as [extra ->]. exists extra; reflexivity.
-Qed.
-
-(* [sub] as a proposition: b = a with surplus operands underneath *)
-Definition subP (a b : shape) : Prop :=
-  exists extra, b = mkShape (frames a) (caps a) (aes a) (stk a ++ extra).
-
-Lemma sub_subP a b : sub a b = true -> subP a b.
-Proof.
-  unfold sub. intros H.
+  unfold shape_eqb. intros H.
   apply andb_prop in H as [H H4]. apply andb_prop in H as [H H3]. apply andb_prop in H as [H1 H2].
-  apply (list_eqb_eq _ fk_eqb_eq) in H1. apply Nat.eqb_eq in H2, H3.
-  destruct (is_prefix_app _ _ H4) as [extra He]. exists extra.
+  apply (list_eqb_eq _ fk_eqb_eq) in H1. apply Nat.eqb_eq in H2, H3. apply (list_eqb_eq _ slot_eqb_eq) in H4.
   destruct a, b; cbn in *. congruence.
 Qed.
 
-Lemma subP_refl a : subP a a.
-Proof. exists []. rewrite app_nil_r. destruct a; reflexivity. Qed.
-
-Lemma subP_trans a b c : subP a b -> subP b c -> subP a c.
+(* a return edge goes to the pc the frame remembers *)
+Lemma edges_ret i pc s rc ts : ret_of i s = Some rc -> edges i pc s = Some ts ->
+  exists s', ts = [(fst rc, s')].
 Proof.
-  intros [e1 ->] [e2 ->]. cbn. exists (e1 ++ e2). rewrite app_assoc. reflexivity.
+  unfold ret_of. destruct i; try discriminate. destruct s as [f c a k]; cbn [frames].
+  destruct f as [|[|[[r cap]|]] f]; try discriminate. intros H; inversion H; subst rc. cbn [edges frames caps aes stk fst].
+  destruct (popV ret_pops k); [|discriminate]. destruct cap.
+  - destruct c; [discriminate|]. intros H2; inversion H2. eexists; reflexivity.
+  - intros H2; inversion H2. eexists; reflexivity.
 Qed.
 
-Lemma subP_scope a b : subP a b -> scope_of b = scope_of a.
-Proof. intros [e ->]. reflexivity. Qed.
+(* ================= one analysis ================= *)
+Section Act.
+Variable C : list instr.
+Variable A : ann.
+Variable m : mode.
+Variable entries : list (nat * shape).
+Hypothesis Hchk : check_act C A m entries = true.
 
-Lemma subP_final a b : subP a b -> final_ok a = final_ok b.
-Proof. intros [e ->]. reflexivity. Qed.
+Lemma Hlen : length A = length C.
+Proof. unfold check_act in Hchk. apply andb_prop in Hchk as [H _]. apply andb_prop in H as [H _]. now apply Nat.eqb_eq in H. Qed.
+Lemma Hent : forall e, In e entries -> target_ok C A m e = true.
+Proof. unfold check_act in Hchk. apply andb_prop in Hchk as [H _]. apply andb_prop in H as [_ H]. now rewrite forallb_forall in H. Qed.
+Lemma Hall : forall pc, pc < length C -> check_at C A m pc = true.
+Proof.
+  unfold check_act in Hchk. apply andb_prop in Hchk as [_ H]. rewrite forallb_forall in H.
+  intros pc Hpc. apply H. apply in_seq. lia.
+Qed.
 
+(* "good" configuration: inside the stream in exactly the annotated shape; or (entry-point
+   analyses only) at the end of the stream in the final shape *)
+Definition good (c : nat * shape) : Prop :=
+  (fst c < length C /\ nth_error A (fst c) = Some (Some (snd c)))
+  \/ (m = None /\ fst c = length C /\ final_ok (snd c) = true).
+
+Lemma target_good t : target_ok C A m t = true -> good t.
+Proof.
+  destruct t as [pc s]. unfold target_ok, good. cbn [fst snd]. intros H.
+  destruct (Nat.eqb pc (length C)) eqn:E.
+  - apply Nat.eqb_eq in E. right. destruct m; [discriminate|]. auto.
+  - destruct (nth_error A pc) as [[st|]|] eqn:En; try discriminate.
+    apply shape_eqb_eq in H. subst st. left. split; [|reflexivity].
+    assert (pc < length A) by (apply nth_error_Some; congruence). pose proof Hlen. lia.
+Qed.
+
+Lemma entry_good e : In e entries -> good e.
+Proof. intros H. apply target_good. apply Hent. assumption. Qed.
+
+(* what the checker established at a good configuration *)
+Lemma good_at pc s i : good (pc, s) -> nth_error C pc = Some i ->
+  exists ts, edges i pc s = Some ts /\
+    match ret_of i s with
+    | Some rc => m = Some rc /\ ts = [(fst rc, ret_rel (snd rc))]
+    | None => (forall t, In t ts -> good t) /\ (i = IReturn -> m = None /\ final_ok s = true)
+    end.
+Proof.
+  intros [[Hlt Ha]|[_ [Heq _]]] Hi; cbn [fst snd] in *.
+  2:{ assert (nth_error C pc = None) by (apply nth_error_None; lia). congruence. }
+  pose proof (Hall pc Hlt) as Hall. unfold check_at in Hall. rewrite Hi, Ha in Hall.
+  destruct (edges i pc s) as [ts|] eqn:E; [|discriminate]. exists ts. split; [reflexivity|].
+  destruct (ret_of i s) as [rc|] eqn:Er.
+  - destruct m as [rc'|]; [|discriminate].
+    destruct (edges_ret _ _ _ _ _ Er E) as [s' ->].
+    apply andb_prop in Hall as [H1 H2]. apply opt_eqb_eq in H1. apply shape_eqb_eq in H2.
+    inversion H1; subst. split; reflexivity.
+  - apply andb_prop in Hall as [H1 H2]. rewrite forallb_forall in H1. split.
+    + intros t Ht. apply target_good. apply H1. assumption.
+    + intros ->. destruct m; [discriminate|]. auto.
+Qed.
+
+Lemma good_inside pc s : good (pc, s) -> pc <= length C.
+Proof. intros [[H _]|[_ [H _]]]; cbn in *; lia. Qed.
+
+Lemma good_unique c c' : good c -> good c' -> fst c' = fst c -> fst c < length C -> snd c' = snd c.
+Proof.
+  intros [[_ Ha]|[_ [Heq _]]] [[_ Ha']|[_ [Heq' _]]] Hpc Hlt; try lia.
+  rewrite Hpc in Ha'. congruence.
+Qed.
+End Act.
+
+(* ================= the summary machine (entry-point analysis) ================= *)
+Section Sound.
+Variable C : list instr.
+Variable A : ann.
+Variable entries : list (nat * shape).
+Hypothesis Hchk : check_ann C A entries = true.
+
+Lemma step_good b c : good C A None b -> astep C b c -> good C A None c.
+Proof.
+  intros Hb Hs. inversion Hs as [pc s i ts t Hi He Hin]; subst.
+  destruct (good_at C A None entries Hchk pc s i Hb Hi) as (ts' & He' & H).
+  rewrite He in He'. inversion He'; subst ts'.
+  destruct (ret_of i s); [destruct H; discriminate|]. apply H. assumption.
+Qed.
+
+Lemma star_good e c : In e entries -> astar C e c -> good C A None c.
+Proof.
+  intros He Hst. induction Hst as [c|a b c Hab IH Hbc].
+  - eapply entry_good; eassumption.
+  - eapply step_good; eauto.
+Qed.
+
+Lemma good_not_stuck c : good C A None c -> ~ stuck C c.
+Proof.
+  intros Hg (i & Hi & He). destruct c as [pc s]. cbn [fst snd] in *.
+  destruct (good_at C A None entries Hchk pc s i Hg Hi) as (ts & He' & _). congruence.
+Qed.
+
+Lemma good_ends c : good C A None c -> ends C c -> final_ok (snd c) = true.
+Proof.
+  intros Hg He. destruct c as [pc s]. cbn [fst snd] in *. destruct He as [He|He].
+  - destruct Hg as [[Hlt _]|[_ [_ Hf]]]; cbn [fst snd] in *; [lia|assumption].
+  - destruct (good_at C A None entries Hchk pc s IReturn Hg He) as (ts & _ & H).
+    cbn [ret_of] in H. apply H. reflexivity.
+Qed.
+
+Theorem check_ann_sound_proof : balanced C entries.
+Proof.
+  intros e c He Hst. pose proof (star_good e c He Hst) as Hg.
+  split; [apply good_not_stuck; assumption|].
+  split; [destruct c; eapply good_inside; eassumption|].
+  split; [apply good_ends; assumption|].
+  intros e' c' He' Hst' Hpc Hlt. eapply good_unique; eauto. eapply star_good; eauto.
+Qed.
+End Sound.
+
+(* ================= lifting: an activation on top of its caller ================= *)
 Lemma popV_app n : forall k k' extra, popV n k = Some k' -> popV n (k ++ extra) = Some (k' ++ extra).
 Proof.
   induction n as [|n IH]; intros k k' extra H; cbn in *.
@@ -54,153 +159,226 @@ Proof.
   - destruct k as [|[|] k]; try discriminate. cbn. apply IH; assumption.
 Qed.
 
-(* surplus operands underneath never change what an instruction does *)
-Lemma edges_mono i pc s s2 ts : subP s s2 -> edges i pc s = Some ts ->
-  exists ts2, edges i pc s2 = Some ts2 /\
-    Forall2 (fun t t2 => fst t = fst t2 /\ subP (snd t) (snd t2)) ts ts2.
+Lemma has_loop_app f g : has_loop f = true -> has_loop (f ++ g) = true.
+Proof. unfold has_loop. rewrite existsb_app. intros ->. reflexivity. Qed.
+
+Definition lift_t (b : shape) (t : nat * shape) : nat * shape := (fst t, lift b (snd t)).
+
+(* frames, captures, auto-escape entries and operands of the caller underneath never change
+   what an instruction does *)
+Lemma edges_lift i pc b s ts : edges i pc s = Some ts ->
+  edges i pc (lift b s) = Some (map (lift_t b) ts).
 Proof.
-  intros [extra ->] He. destruct s as [f c a k]. cbn [frames caps aes stk] in *.
-  assert (R : forall pc' (x : shape) y, subP x y -> Forall2 (fun t t2 : nat * shape => fst t = fst t2 /\ subP (snd t) (snd t2)) [(pc', x)] [(pc', y)]).
-  { intros. constructor; [split; [reflexivity|assumption]|constructor]. }
-  assert (Q : forall (f' : list fk) c' a' (k' : list slot), subP (mkShape f' c' a' k') (mkShape f' c' a' (k' ++ extra))).
-  { intros. exists extra. reflexivity. }
-  destruct i; cbn [edges frames caps aes stk with_stk with_frames] in *.
+  destruct s as [f c a k], b as [fb cb ab kb]. unfold lift, lift_t. cbn [frames caps aes stk].
+  destruct i; cbn [edges frames caps aes stk with_stk with_frames]; intros He.
   - (* IStack *) destruct (popV pops k) as [k'|] eqn:E; [|discriminate]. inversion He; subst.
-    rewrite (popV_app _ _ _ extra E). eexists; split; [reflexivity|]. apply R.
-    unfold pushV. rewrite app_assoc. apply Q.
-  - inversion He; subst. eexists; split; [reflexivity|]. apply R. apply (Q f c a (B :: k)).
+    rewrite (popV_app _ _ _ kb E). cbn. unfold pushV. rewrite app_assoc. reflexivity.
+  - inversion He; subst. reflexivity.
   - destruct (popV n k) as [k'|] eqn:E; [|discriminate]. inversion He; subst.
-    rewrite (popV_app _ _ _ extra E). eexists; split; [reflexivity|]. apply R. apply (Q f c a (B :: k')).
-  - destruct k as [|[|] k]; try discriminate. inversion He; subst. cbn. eexists; split; [reflexivity|]. apply R. apply (Q f c a (V :: k)).
-  - destruct k as [|[|] [|[|] k]]; try discriminate; inversion He; subst; cbn; eexists; (split; [reflexivity|]); apply R.
-    + apply (Q f c a (V :: V :: k)).
-    + apply (Q f c a (B :: k)).
-  - destruct k as [|[|] [|[|] k]]; try discriminate; inversion He; subst; cbn; eexists; (split; [reflexivity|]); apply R.
-    + apply (Q f c a (V :: k)).
-    + apply (Q f c a (B :: k)).
-  - inversion He; subst. eexists; split; [reflexivity|]. apply R. apply Q.
-  - destruct f as [|[|] f]; try discriminate. inversion He; subst. eexists; split; [reflexivity|]. apply R. apply Q.
-  - destruct k as [|[|] k]; try discriminate. inversion He; subst. cbn. eexists; split; [reflexivity|]. apply R. apply Q.
-  - destruct f as [|[|] f]; try discriminate. inversion He; subst. eexists; split; [reflexivity|]. apply R. apply Q.
-  - destruct (has_loop f); [|discriminate]. inversion He; subst. eexists; split; [reflexivity|].
-    constructor; [split; [reflexivity|apply (Q f c a (V :: k))]|]. apply R. apply Q.
-  - destruct (has_loop f); [|discriminate]. inversion He; subst. eexists; split; [reflexivity|]. apply R. apply (Q f c a (V :: k)).
-  - inversion He; subst. eexists; split; [reflexivity|]. apply R. apply Q.
-  - destruct k as [|[|] k]; try discriminate. inversion He; subst. cbn. eexists; split; [reflexivity|].
-    constructor; [split; [reflexivity|apply Q]|]. apply R. apply Q.
-  - destruct k as [|[|] k]; try discriminate. inversion He; subst. cbn. eexists; split; [reflexivity|].
-    constructor; [split; [reflexivity|apply Q]|]. apply R. apply (Q f c a (V :: k)).
-  - destruct k as [|[|] k]; try discriminate. inversion He; subst. cbn. eexists; split; [reflexivity|]. apply R. apply Q.
-  - destruct a as [|a]; try discriminate. inversion He; subst. eexists; split; [reflexivity|]. apply R. apply Q.
-  - inversion He; subst. eexists; split; [reflexivity|]. apply R. apply Q.
-  - destruct c as [|c]; try discriminate. inversion He; subst. eexists; split; [reflexivity|]. apply R. apply (Q f c a (V :: k)).
-  - inversion He; subst. eexists; split; [reflexivity|constructor].
+    rewrite (popV_app _ _ _ kb E). reflexivity.
+  - destruct k as [|[|] k]; try discriminate. inversion He; subst. reflexivity.
+  - destruct k as [|[|] [|[|] k]]; try discriminate; inversion He; subst; reflexivity.
+  - destruct k as [|[|] [|[|] k]]; try discriminate; inversion He; subst; reflexivity.
+  - inversion He; subst. reflexivity.
+  - destruct f as [|[|] f]; try discriminate. inversion He; subst. reflexivity.
+  - destruct k as [|[|] k]; try discriminate. inversion He; subst. reflexivity.
+  - (* IPopLoopFrame *)
+    destruct f as [|[|[[r cap]|]] f]; try discriminate; cbn [app].
+    + destruct (popV ret_pops k) as [k'|] eqn:E; [|discriminate].
+      rewrite (popV_app _ _ _ kb E). destruct cap.
+      * destruct c as [|c]; [discriminate|]. inversion He; subst. reflexivity.
+      * inversion He; subst. reflexivity.
+    + inversion He; subst. reflexivity.
+  - destruct (has_loop f) eqn:E; [|discriminate]. rewrite (has_loop_app _ fb E). inversion He; subst. reflexivity.
+  - destruct (has_loop f) eqn:E; [|discriminate]. rewrite (has_loop_app _ fb E). inversion He; subst. reflexivity.
+  - inversion He; subst. reflexivity.
+  - destruct k as [|[|] k]; try discriminate. inversion He; subst. reflexivity.
+  - destruct k as [|[|] k]; try discriminate. inversion He; subst. reflexivity.
+  - destruct k as [|[|] k]; try discriminate. inversion He; subst. reflexivity.
+  - destruct a as [|a]; try discriminate. inversion He; subst. reflexivity.
+  - inversion He; subst. reflexivity.
+  - destruct c as [|c]; try discriminate. inversion He; subst. reflexivity.
+  - inversion He; subst. reflexivity.
+  - destruct dyn; destruct k as [|[|] k]; try discriminate; inversion He; subst; reflexivity.
+  - destruct k as [|[|] k]; try discriminate. inversion He; subst. reflexivity.
 Qed.
 
-Lemma edges_stuck_mono i pc s s2 : subP s s2 -> edges i pc s2 = None -> edges i pc s = None.
+Lemma lift_assoc b x e : lift b (lift x e) = lift (lift b x) e.
+Proof. unfold lift. cbn [frames caps aes stk]. rewrite <- !app_assoc, <- !Nat.add_assoc. reflexivity. Qed.
+
+(* a defined instruction that is no call has no call argument, also with the caller underneath *)
+Lemma call_arg_lift i pc b s ts : edges i pc s = Some ts ->
+  call_arg i (lift b s) = match call_arg i s with Some (cap, k) => Some (cap, k ++ stk b) | None => None end.
 Proof.
-  intros Hs H2. destruct (edges i pc s) as [ts|] eqn:E; [|reflexivity].
-  destruct (edges_mono _ _ _ _ _ Hs E) as (ts2 & H & _). congruence.
+  destruct s as [f c a k]. unfold call_arg, lift. cbn [frames caps aes stk].
+  destruct i; try reflexivity; cbn [edges stk].
+  - destruct dyn; destruct k as [|[|] k]; try discriminate; reflexivity.
+  - destruct k as [|[|] k]; try discriminate; reflexivity.
 Qed.
 
-Lemma Forall2_In_r {X Y} (R : X -> Y -> Prop) l0 l2 t : Forall2 R l0 l2 -> In t l2 -> exists t0, In t0 l0 /\ R t0 t.
+Lemma call_edges_lift C i pc b s ts : edges i pc s = Some ts ->
+  call_edges C i pc (lift b s) = map (lift_t b) (call_edges C i pc s).
 Proof.
-  induction 1 as [|x y l0 l2 Hxy HF IH]; intros Hin; [destruct Hin|].
-  destruct Hin as [<-|Hin].
-  - exists x; split; [left; reflexivity|assumption].
-  - destruct (IH Hin) as (t0 & H0 & HR). exists t0; split; [right; assumption|assumption].
+  intros He. unfold call_edges. rewrite (call_arg_lift _ _ b _ _ He).
+  destruct (call_arg i s) as [[cap k]|]; [|reflexivity].
+  rewrite map_map. apply map_ext. intros p. unfold lift_t. cbn [fst snd]. f_equal.
+  rewrite lift_assoc. reflexivity.
 Qed.
 
-Section Sound.
+(* the summary successor of a call: the caller without the argument, plus the call's result *)
+Lemma call_summary i pc s cap k : call_arg i s = Some (cap, k) ->
+  edges i pc s = Some [(S pc, lift (with_stk s k) (ret_rel cap))].
+Proof.
+  destruct s as [f c a st]. unfold call_arg, lift, ret_rel, with_stk. cbn [frames caps aes stk].
+  destruct i; try discriminate.
+  - destruct dyn; destruct st as [|[|] st]; try discriminate; intros H; inversion H; subst; reflexivity.
+  - destruct st as [|[|] st]; try discriminate; intros H; inversion H; subst; reflexivity.
+Qed.
+
+Lemma sites_from_in C : forall o pc i, nth_error C pc = Some i ->
+  forall s cap k, call_arg i s = Some (cap, k) -> In (S (o + pc), cap) (sites_from o C).
+Proof.
+  induction C as [|j C IH]; intros o pc i Hi s cap k Hc; [destruct pc; discriminate|].
+  destruct pc as [|pc].
+  - cbn in Hi. inversion Hi; subst j. rewrite Nat.add_0_r.
+    unfold call_arg in Hc. destruct i; try discriminate; cbn [sites_from].
+    + left. f_equal. destruct dyn; destruct (stk s) as [|[|] ?]; try discriminate; inversion Hc; reflexivity.
+    + left. f_equal. destruct (stk s) as [|[|] ?]; try discriminate; inversion Hc; reflexivity.
+  - cbn in Hi. specialize (IH (S o) pc i Hi s cap k Hc).
+    replace (S (o + S pc)) with (S (S o + pc)) by lia.
+    destruct j; cbn [sites_from]; try assumption; right; assumption.
+Qed.
+
+Lemma combine_In_l {X Y} (l : list X) : forall (l' : list Y) x, length l' = length l -> In x l ->
+  exists y, In (x, y) (combine l l').
+Proof.
+  induction l as [|a l IH]; intros l' x Hl Hin; [destruct Hin|].
+  destruct l' as [|b l']; [discriminate|]. cbn in Hl. destruct Hin as [<-|Hin].
+  - exists b. left. reflexivity.
+  - destruct (IH l' x ltac:(lia) Hin) as [y Hy]. exists y. right. assumption.
+Qed.
+
+(* ================= the real machine ================= *)
+Section Rec.
 Variable C : list instr.
-Variable A : ann.
+Variable Am : ann.
+Variable Ar : list ann.
 Variable entries : list (nat * shape).
-Hypothesis Hchk : check_ann C A entries = true.
+Hypothesis Hchk : check_rec C Am Ar entries = true.
 
-Let Hlen : length A = length C.
-Proof. unfold check_ann in Hchk. apply andb_prop in Hchk as [H _]. apply andb_prop in H as [H _]. now apply Nat.eqb_eq in H. Qed.
-Let Hent : forall e, In e entries -> entry_ok C A e = true.
-Proof. unfold check_ann in Hchk. apply andb_prop in Hchk as [H _]. apply andb_prop in H as [_ H]. now rewrite forallb_forall in H. Qed.
-Let Hall : forall pc, pc < length C -> check_at C A pc = true.
+Lemma Hmain : check_act C Am None entries = true.
+Proof. unfold check_rec in Hchk. apply andb_prop in Hchk as [H _]. apply andb_prop in H as [H _]. exact H. Qed.
+Lemma Hnum : length Ar = length (regions C).
+Proof. unfold check_rec in Hchk. apply andb_prop in Hchk as [H _]. apply andb_prop in H as [_ H]. now apply Nat.eqb_eq in H. Qed.
+Lemma Hreg : forall p rc A, In ((p, rc), A) (combine (regions C) Ar) ->
+  check_act C A (Some rc) [(S p, reg_entry (fst rc) (snd rc))] = true.
 Proof.
-  unfold check_ann in Hchk. apply andb_prop in Hchk as [_ H]. rewrite forallb_forall in H.
-  intros pc Hpc. apply H. apply in_seq. lia.
+  unfold check_rec in Hchk. apply andb_prop in Hchk as [_ H]. rewrite forallb_forall in H.
+  intros p rc A Hin. exact (H _ Hin).
 Qed.
 
-(* "good" configuration: inside the stream, the annotated shape with surplus operands underneath;
-   or at the end in a final shape *)
-Definition good (c : nat * shape) : Prop :=
-  (fst c < length C /\ exists st, nth_error A (fst c) = Some (Some st) /\ subP st (snd c))
-  \/ (fst c = length C /\ final_ok (snd c) = true).
+(* A reachable configuration is a stack of activations: the entry point's, or a recursive
+   loop's activation [rel] on top of a base such that returning into the base is again fine. *)
+Inductive inv : nat * shape -> Prop :=
+| inv_main c : good C Am None c -> inv c
+| inv_reg p rc A pc rel base :
+    In ((p, rc), A) (combine (regions C) Ar) ->
+    good C A (Some rc) (pc, rel) ->
+    inv (fst rc, lift base (ret_rel (snd rc))) ->
+    inv (pc, lift base rel).
 
-Lemma target_good pc s s2 : target_ok C A (pc, s) = true -> subP s s2 -> good (pc, s2).
+(* entering a recursive loop from a call site whose summary successor is fine *)
+Lemma inv_call i pc s cap k p base :
+  nth_error C pc = Some i -> call_arg i s = Some (cap, k) -> In p (rec_targets C) ->
+  inv (S pc, lift base (lift (with_stk s k) (ret_rel cap))) ->
+  inv (S p, lift base (lift (with_stk s k) (reg_entry (S pc) cap))).
 Proof.
-  unfold target_ok, good. cbn [fst snd]. intros H Hs.
-  destruct (Nat.eqb pc (length C)) eqn:E.
-  - apply Nat.eqb_eq in E. right. split; [assumption|]. rewrite <- (subP_final _ _ Hs). assumption.
-  - apply Nat.eqb_neq in E. destruct (nth_error A pc) as [[st|]|] eqn:En; try discriminate.
-    apply sub_subP in H. left. split.
-    + assert (pc < length A) by (apply nth_error_Some; congruence). lia.
-    + exists st. split; [reflexivity|]. eapply subP_trans; eassumption.
+  intros Hi Hc Hp Hret.
+  assert (Hs : In (S pc, cap) (call_sites C)) by (apply (sites_from_in C 0 pc i Hi s cap k Hc)).
+  assert (Hr : In (p, (S pc, cap)) (regions C)) by (apply in_prod; assumption).
+  destruct (combine_In_l (regions C) Ar _ Hnum Hr) as [A HA].
+  rewrite lift_assoc. eapply (inv_reg p (S pc, cap) A); [exact HA| |].
+  - eapply entry_good; [apply (Hreg _ _ _ HA)|left; reflexivity].
+  - cbn [fst snd]. rewrite <- lift_assoc. exact Hret.
 Qed.
 
-Lemma entry_good e : In e entries -> good e.
+Lemma lift_shape0 s : lift shape0 s = s.
+Proof. destruct s. unfold lift, shape0. cbn. rewrite !app_nil_r, !Nat.add_0_r. reflexivity. Qed.
+
+Lemma step_inv c c' : inv c -> rstep C c c' -> inv c'.
 Proof.
-  intros H. specialize (Hent e H). destruct e as [pc s].
-  apply (target_good pc s s); [exact Hent|apply subP_refl].
+  intros Hinv. revert c'. induction Hinv as [c Hg|p rc A pc rel base HA Hg Hret IH]; intros c' Hs.
+  - (* entry-point activation *)
+    inversion Hs as [pc s i ts t Hi He Hin]; subst.
+    destruct (good_at C Am None entries Hmain pc s i Hg Hi) as (ts' & He' & H).
+    rewrite He in He'. inversion He'; subst ts'.
+    destruct (ret_of i s); [destruct H; discriminate|]. destruct H as [Hts _].
+    apply in_app_or in Hin as [Hin|Hin].
+    + apply inv_main. apply Hts. assumption.
+    + unfold call_edges in Hin. destruct (call_arg i s) as [[cap k]|] eqn:Hc; [|destruct Hin].
+      apply in_map_iff in Hin as (q & <- & Hq).
+      rewrite <- (lift_shape0 (lift (with_stk s k) (reg_entry (S pc) cap))).
+      eapply inv_call; eauto. rewrite lift_shape0. apply inv_main. apply Hts.
+      rewrite (call_summary i pc s cap k Hc) in He. inversion He. left. reflexivity.
+  - (* activation of a recursive loop on top of [base] *)
+    inversion Hs as [pc0 s i ts t Hi He Hin]; subst.
+    destruct (good_at C A (Some rc) _ (Hreg _ _ _ HA) pc rel i Hg Hi) as (ts0 & He0 & H).
+    rewrite (edges_lift _ _ base _ _ He0) in He. inversion He; subst ts.
+    rewrite (call_edges_lift C _ _ base _ _ He0) in Hin.
+    apply in_app_or in Hin as [Hin|Hin].
+    + apply in_map_iff in Hin as ([pc1 s1] & <- & Hin). unfold lift_t. cbn [fst snd].
+      destruct (ret_of i rel) as [rc'|].
+      * destruct H as [Hm ->]. inversion Hm; subst rc'. destruct Hin as [Hin|[]]. inversion Hin; subst. exact Hret.
+      * destruct H as [Hts _]. eapply inv_reg; [exact HA| |exact Hret]. apply Hts. assumption.
+    + apply in_map_iff in Hin as ([pc1 s1] & <- & Hin). unfold lift_t. cbn [fst snd].
+      unfold call_edges in Hin. destruct (call_arg i rel) as [[cap k]|] eqn:Hc; [|destruct Hin].
+      apply in_map_iff in Hin as (q & Hq1 & Hq). inversion Hq1; subst pc1 s1.
+      eapply inv_call; eauto.
+      pose proof (call_summary i pc rel cap k Hc) as Hsum. rewrite He0 in Hsum. inversion Hsum; subst ts0.
+      assert (Hr : ret_of i rel = None).
+      { unfold ret_of. destruct i; try reflexivity. discriminate Hc. }
+      rewrite Hr in H. destruct H as [Hts _].
+      eapply inv_reg; [exact HA| |exact Hret]. apply Hts. left. reflexivity.
 Qed.
 
-Lemma step_good b c : good b -> astep C b c -> good c.
-Proof.
-  intros Hb Hs. inversion Hs as [pc s i ts t Hi He Hin]; subst.
-  destruct Hb as [[Hlt (st & Ha & Hsub)]|[Heq _]]; cbn [fst snd] in *.
-  - specialize (Hall pc Hlt). unfold check_at in Hall. rewrite Hi, Ha in Hall.
-    destruct (edges i pc st) as [ts0|] eqn:E0; [|discriminate].
-    apply andb_prop in Hall as [Hts _]. rewrite forallb_forall in Hts.
-    destruct (edges_mono _ _ _ _ _ Hsub E0) as (ts2 & He2 & HF). rewrite He in He2. inversion He2; subst ts2.
-    destruct (Forall2_In_r _ _ _ _ HF Hin) as ([p0 s0] & Hin0 & Hpc & Hsb).
-    destruct c as [p2 s2]. cbn [fst snd] in *. subst p2.
-    eapply target_good; [apply Hts; exact Hin0|assumption].
-  - assert (nth_error C pc = None) by (apply nth_error_None; lia). congruence.
-Qed.
-
-Lemma star_good e c : In e entries -> astar C e c -> good c.
+Lemma rstar_inv e c : In e entries -> rstar C e c -> inv c.
 Proof.
   intros He Hst. induction Hst as [c|a b c Hab IH Hbc].
-  - apply entry_good; assumption.
-  - eapply step_good; eauto.
+  - apply inv_main. eapply entry_good; [exact Hmain|assumption].
+  - eapply step_inv; eauto.
 Qed.
 
-Lemma good_not_stuck c : good c -> ~ stuck C c.
+Lemma inv_not_stuck c : inv c -> ~ stuck C c.
 Proof.
-  intros [[Hlt (st & Ha & Hsub)]|[Heq _]] (i & Hi & He).
-  - specialize (Hall (fst c) Hlt). unfold check_at in Hall. rewrite Hi, Ha in Hall.
-    rewrite (edges_stuck_mono _ _ _ _ Hsub He) in Hall. discriminate.
-  - assert (nth_error C (fst c) = None) by (apply nth_error_None; lia). congruence.
+  intros Hinv (i & Hi & He). destruct Hinv as [[pc s] Hg|p rc A pc rel base HA Hg Hret]; cbn [fst snd] in *.
+  - destruct (good_at C Am None entries Hmain pc s i Hg Hi) as (ts & He' & _). congruence.
+  - destruct (good_at C A (Some rc) _ (Hreg _ _ _ HA) pc rel i Hg Hi) as (ts & He' & _).
+    rewrite (edges_lift _ _ base _ _ He') in He. discriminate.
 Qed.
 
-Lemma good_ends c : good c -> ends C c -> final_ok (snd c) = true.
+Lemma inv_inside c : inv c -> fst c <= length C.
 Proof.
-  intros [[Hlt (st & Ha & Hsub)]|[Heq Hf]] [He|He]; try assumption; try lia.
-  specialize (Hall (fst c) Hlt). unfold check_at in Hall. rewrite He, Ha in Hall.
-  destruct (edges IReturn (fst c) st); [|discriminate].
-  apply andb_prop in Hall as [_ H]. rewrite <- (subP_final _ _ Hsub). exact H.
+  intros [[pc s] Hg|p rc A pc rel base HA Hg Hret]; cbn [fst].
+  - eapply good_inside; [exact Hmain|eassumption].
+  - eapply good_inside; [exact (Hreg _ _ _ HA)|eassumption].
 Qed.
 
-Lemma good_unique c c' : good c -> good c' -> fst c' = fst c -> fst c < length C ->
-  scope_of (snd c') = scope_of (snd c).
+Lemma inv_ends c : inv c -> ends C c -> final_ok (snd c) = true.
 Proof.
-  intros [[_ (st & Ha & Hs)]|[Heq _]] [[_ (st' & Ha' & Hs')]|[Heq' _]] Hpc Hlt; try lia.
-  rewrite Hpc in Ha'. rewrite Ha in Ha'. inversion Ha'; subst st'.
-  rewrite (subP_scope _ _ Hs), (subP_scope _ _ Hs'). reflexivity.
+  intros Hinv He. destruct Hinv as [[pc s] Hg|p rc A pc rel base HA Hg Hret]; cbn [fst snd] in *.
+  - destruct He as [He|He].
+    + destruct Hg as [[Hlt _]|[_ [_ Hf]]]; cbn [fst snd] in *; [lia|assumption].
+    + destruct (good_at C Am None entries Hmain pc s IReturn Hg He) as (ts & _ & H). cbn [ret_of] in H. apply H. reflexivity.
+  - exfalso. destruct He as [He|He].
+    + destruct Hg as [[Hlt _]|[Hm _]]; cbn [fst snd] in *; [lia|discriminate].
+    + destruct (good_at C A (Some rc) _ (Hreg _ _ _ HA) pc rel IReturn Hg He) as (ts & _ & H). cbn [ret_of] in H.
+      destruct H as [_ H]. destruct (H eq_refl) as [Hm _]. discriminate.
 Qed.
 
-Theorem check_ann_sound_proof : balanced C entries.
+Theorem check_rec_sound_proof : rbalanced C entries.
 Proof.
-  intros e c He Hst. pose proof (star_good e c He Hst) as Hg.
-  split; [apply good_not_stuck; assumption|].
-  split; [destruct Hg as [[H _]|[H _]]; lia|].
-  split; [apply good_ends; assumption|].
-  intros e' c' He' Hst' Hpc Hlt. apply good_unique; auto. eapply star_good; eauto.
+  intros e c He Hst. pose proof (rstar_inv e c He Hst) as Hi.
+  split; [apply inv_not_stuck; assumption|].
+  split; [apply inv_inside; assumption|apply inv_ends; assumption].
 Qed.
-End Sound.
+End Rec.
